@@ -291,7 +291,8 @@ def run(ctx):
             # slab index argument: the slab that was operated on
             sl = Slice(b).run(ut["args"][1])
             if name == "insert_with_unchecked":
-                idx_ok = any(k.endswith("index_of_slab_to_insert_into") for k, _, _ in sl["calls"])
+                # the index the insertion chose (the helper, or its two sources when it is written out in place)
+                idx_ok = any(k.endswith(("index_of_slab_to_insert_into", "VacancyTracker::next_vacancy", "allocate_slab_for_insert")) for k, _, _ in sl["calls"])
             else:
                 idx_ok = any(k.endswith("slab_index") for k, _, _ in sl["calls"])
             ok = ok and idx_ok
